@@ -3,6 +3,7 @@ package main
 // SSA interpreter with symbolic scalars. One Exec per path run.
 
 import (
+	"os"
 	"fmt"
 	"go/constant"
 	"go/token"
@@ -345,7 +346,41 @@ func (ex *Exec) goPanicStr(msg string) {
 	panic(goPanic{v: IfaceV{t: ex.prog.runtimeErrType, v: ex.strC(msg)}, msg: "runtime error: " + msg})
 }
 
+// storeInto writes v into the cell p IN PLACE: a struct or array already held by the cell
+// keeps its identity, so that field / element addresses taken before the store stay valid
+// (go/ssa emits `t1 = &t0.f; *t0 = T{}; *t1 = x` for a partial composite literal).
+func storeInto(p *Value, v Value) {
+	switch nv := v.(type) {
+	case StructV:
+		if old, ok := (*p).(StructV); ok && len(old) == len(nv) {
+			for i := range nv {
+				storeInto(&old[i], nv[i])
+			}
+			return
+		}
+	case ArrayV:
+		if old, ok := (*p).(ArrayV); ok && len(old) == len(nv) {
+			for i := range nv {
+				storeInto(&old[i], nv[i])
+			}
+			return
+		}
+	}
+	*p = copyVal(v)
+}
+
+var traceInstr = os.Getenv("GOSYMEX_TRACE") != ""
+
 func (ex *Exec) visitInstr(fr *frame, instr ssa.Instruction) continuation {
+	if traceInstr {
+		defer func() {
+			if v, ok := instr.(ssa.Value); ok {
+				fmt.Fprintf(os.Stderr, "TRACE %s: %s = %s  -> %v\n", fr.fn.Name(), v.Name(), instr, fr.env[v])
+			} else {
+				fmt.Fprintf(os.Stderr, "TRACE %s: %s\n", fr.fn.Name(), instr)
+			}
+		}()
+	}
 	switch instr := instr.(type) {
 	case *ssa.DebugRef:
 	case *ssa.UnOp:
@@ -410,7 +445,7 @@ func (ex *Exec) visitInstr(fr *frame, instr ssa.Instruction) continuation {
 		if p == nil {
 			ex.goPanicStr("invalid memory address or nil pointer dereference")
 		}
-		*p = copyVal(fr.get(instr.Val))
+		storeInto(p, fr.get(instr.Val))
 	case *ssa.If:
 		c, ok := fr.get(instr.Cond).(*Term)
 		if !ok {
